@@ -69,6 +69,8 @@ def run(rep, tier):
         ('ERR-must-raise', 'every generated error function raises on all paths'),
         ('ERR-shape', 'error functions raise ParseError(message, pos, line, col)'),
         ('EXC-classes', 'exception constructors match the raise sites'),
+        ('BYTES-safe', 'the driver and the position/message code never mix the text with a str constant on a path '
+                       'where the text may be bytes'),
         ('FREE-name', 'every name the error path reads exists in the module that runs it (no NameError instead of ParseError)'),
         ('SUBIMPORT-complete', 'sub-grammars import every runtime name emitted code mentions'),
     ]:
@@ -93,10 +95,11 @@ def run(rep, tier):
         roles, tbad, st = trampoline.analyse(fn, cc, uses_ctx, what)
         n += finalize.driver_exits(fn, roles, uses_ctx, what, bad)
         n += finalize.finalize_rules(fns, what, bad)
+        n += finalize.bytes_safety(fns, what, bad)
         exception_classes(tree, what, rep)
         rep.count('runtime copies analysed')
         for rule, msg in found:
-            if rule in ('DRIVER-exits', 'FINALIZE-exits', 'TABLE-index'):
+            if rule in ('DRIVER-exits', 'FINALIZE-exits', 'TABLE-index', 'BYTES-safe'):
                 rep.add(Finding(rule, f'{rel}:runtime', '', msg, f'{rel} ({what})'))
         rep.obligations += 3
         rep.discharged += 3 - len({r for r, _ in found if r in ('DRIVER-exits', 'FINALIZE-exits', 'TABLE-index')})
